@@ -24,11 +24,11 @@ def run(ctx):
     ctx.add_tlc(res, "ConstSignal_Gen simulate", "R-generate")
     if not res.emitted:
         raise RuntimeError("ConstSignal_Gen produced nothing")
-    gl = ["dyadic", "bl_hires", "coarse"]
+    gl = ["dyadic", "bl_hires", "coarse", "odd"]
     seen = set()
     for n, out in enumerate(res.emitted):
         c = out["cfg"]
-        gname = gl[n % 3]
+        gname = gl[n % 4]
         key = (gname,) + tuple(sorted(c.items()))
         if key in seen:
             continue
